@@ -10,6 +10,7 @@
 import OttoVerif.Base.Proto
 import OttoVerif.C03.Spec
 import OttoVerif.C03.Lit
+import OttoVerif.C03.Asi
 namespace OttoVerif.C03.Driver
 open OttoVerif.C03 OttoVerif.Proto
 
@@ -154,9 +155,23 @@ def handleExpr (mode tree toks : String) : String :=
     model ++ " " ++ spec ++ " " ++ dev
   | _, _ => "bad-request bad-request -"
 
+def flagStr (fs : List Bool) : String := String.ofList (fs.map fun b => if b then '1' else '0')
+
+/-- asi <nlbits> <statements> <srchex> <toks>: nlbits = for every token of the real stream, whether a line terminator stands
+    between it and the previous token (known to the generator, which assembles the source from token texts and separators) -/
+def handleAsi (nlbits stmts toks : String) : String :=
+  match toks? toks with
+  | some ts =>
+    let nls := nlbits.toList.map (· == '1')
+    if nls.length != ts.length then "bad-nlbits bad-nlbits -" else
+    let pairs := (ts.map (·.k)).zip nls
+    flagStr (Asi.modelFlags false pairs) ++ "/accept:" ++ stmts ++ " " ++ flagStr (Asi.specFlags false pairs) ++ "/accept:" ++ stmts ++ " -"
+  | none => "bad-request bad-request -"
+
 def handle (ws : List String) : String :=
   match ws with
   | ["expr", mode, tree, _src, toks] => handleExpr mode tree toks
+  | ["asi", nlbits, stmts, _src, toks] => handleAsi nlbits stmts toks
   | "num" :: rest => Lit.handleNum rest
   | "str" :: rest => Lit.handleStr rest
   | _ => "bad-op bad-op -"
